@@ -47,6 +47,31 @@ def run(ctx):
                 ctx.violation("C16.ordered-notify", "C16.ordered-notify|%s|%s" % (b.path.rsplit("::", 1)[-1] if b.kind != "Closure" else "hook", name),
                               "%s is announced after the state lock was released; announcements can be observed out of transition order" % name, b.loc(bb), config=cfg)
     ctx.floor("C16.ordered-notify", "listener call sites in transition bodies", n, 5)
+    # the retry deadline is part of the guarded test: the store of HalfOpen is dominated by a test of the deadline made AFTER the state
+    # lock was taken (a test made before it may date from before another thread's complete probe cycle, which re-opened the breaker
+    # with a new deadline: the late thread would pass while the breaker is Open before the retry timeout)
+    for st in state_stores(f):
+        b = st["body"]
+        if st["value"] != "HalfOpen":
+            continue
+        r = lm.analyse(b)
+        acqs = [a["bb"] for a in r["acq"] if a["cls"] == "inst:State"]
+        sl = Slicer(f, b)
+        guarded = False
+        for d in b.dominators().get(st["bb"], ()):
+            tt = b.term(d)
+            if not tt or tt["k"] != "switch":
+                continue
+            at = sl.of_operand(tt["op"])
+            if (any_atom(at, "call:BreakerBase::retry_timeout_arrived") or any_atom(at, "field:BreakerBase.next_retry_timestamp_ms")) and any(b.dominates(a, d) for a in acqs):
+                te = bool_edge_targets(b, d)
+                if te and b.dominates(te[0], st["bb"]):
+                    guarded = True
+        ctx.instance("C16.deadline-under-lock", b.path, {"half_open_store_dominated_by_deadline_test_under_the_state_lock": guarded}, "true", guarded, cfg)
+        if not guarded:
+            ctx.violation("C16.deadline-under-lock", "C16.deadline-under-lock|%s" % b.path.rsplit("::", 1)[-1],
+                          "Open -> Half-Open is decided on the state alone under the lock; the retry deadline was tested before the lock was taken: a thread that paused across another thread's failed probe cycle passes while the breaker is Open before the (new) retry timeout",
+                          b.loc(st["bb"]), config=cfg)
     # single lock object: the hook's captured mutex is a clone of BreakerBase.state
     b = f.one("BreakerBase::from_open_to_half_open")
     if b is not None:
